@@ -246,6 +246,19 @@ void PCA(matrix *mx, int scaling, size_t npc, PCAMODEL* model, ssignal *s)
       initDVector(&colvar);
       MatrixColVar(E, colvar);
 
+      if(scaling < 0){
+        /* Without centring the variance says nothing about how much of E'E a
+         * column carries (a constant column has variance 0 but a large sum of
+         * squares): rank the columns by their sum of squares instead, otherwise
+         * the iteration can start orthogonal to the component it should find.
+         */
+        for(j = 0; j < E->col; j++){
+          colvar->data[j] = 0.f;
+          for(i = 0; i < E->row; i++)
+            colvar->data[j] += square(E->data[i][j]);
+        }
+      }
+
       /* Step 1: select the column vector t with the largest column variance */
       j = 0;
       for(i = 1; i < E->col; i++){
